@@ -6,7 +6,9 @@ import sys
 
 ROOT = os.path.dirname(os.path.dirname(os.path.abspath(__file__)))
 sys.path.insert(0, os.path.join(ROOT, "tools"))
-from props import PROPS, NOT_APPLICABLE, HOOK_COMMITS  # noqa: E402
+from props import PROPS as ALL_PROPS, NOT_APPLICABLE, HOOK_COMMITS, CLAIMED  # noqa: E402
+
+PROPS = {k: v for k, v in ALL_PROPS.items() if k in CLAIMED}
 
 checks = []
 for pid in sorted(PROPS):
